@@ -50,7 +50,7 @@ var TmplPlacements = []TmplPlacement{
 		"index.html": "{% import \"imp.html\" %}a{{ M() }}b",
 		"imp.html":   tmplImports + "{% macro M %}i{%%\n@F0@\n%%}j{% end %}"}},
 	{Name: "t_macro_imported_named", Main: "index.html", Files: map[string]string{
-		"index.html": "{% import lib \"dir/imp.html\" %}a{{ lib.M() }}b",
+		"index.html":   "{% import lib \"dir/imp.html\" %}a{{ lib.M() }}b",
 		"dir/imp.html": tmplImports + "{% var V = func() int {\n@F0@\n\treturn 1\n}() %}{% macro M %}i{{ V }}j{% end %}"}},
 	{Name: "t_render", Main: "index.html", Files: map[string]string{
 		"index.html": "a{{ render \"part.html\" }}b",
@@ -167,10 +167,10 @@ type (
 	namedMap       map[string]int
 )
 
-func (s strStringer) String() string          { return s.S }
-func (s htmlStringer) HTML() native.HTML      { return native.HTML(s.S) }
-func (s jsStringer) JS() native.JS            { return native.JS(s.S) }
-func (e errValue) Error() string              { return e.S }
+func (s strStringer) String() string           { return s.S }
+func (s htmlStringer) HTML() native.HTML       { return native.HTML(s.S) }
+func (s jsStringer) JS() native.JS             { return native.JS(s.S) }
+func (e errValue) Error() string               { return e.S }
 func (s envStringer) String(native.Env) string { return s.S }
 
 // ValueNames lists the names of the dictionary values in a fixed order.
@@ -258,7 +258,12 @@ func init() {
 	addValue("struct_unexported", func() any { return onlyUnexported{1, 2} })
 	addValue("struct_empty", func() any { return struct{}{} })
 	addValue("struct_anon", func() any { return struct{ A, B int }{1, 2} })
-	addValue("struct_with_chan", func() any { return struct{ C chan int; F func() }{} })
+	addValue("struct_with_chan", func() any {
+		return struct {
+			C chan int
+			F func()
+		}{}
+	})
 	addValue("ptr_int", func() any { n := 5; return &n })
 	addValue("ptr_int_nil", func() any { return (*int)(nil) })
 	addValue("ptr_ptr", func() any { n := 5; p := &n; return &p })
